@@ -22,6 +22,15 @@
 #include "stir/ProjData.h"
 #include "stir/ExamInfo.h"
 #include "stir/SSRB.h"
+#include "stir/inverse_SSRB.h"
+#include "stir/ProjDataInfoCylindricalArcCorr.h"
+#include "stir/Viewgram.h"
+#include "stir/RelatedViewgrams.h"
+#include "stir/TrivialDataSymmetriesForViewSegmentNumbers.h"
+#include "stir/scatter/SingleScatterSimulation.h"
+#include "stir/extend_projdata.h"
+#include "stir/SegmentBySinogram.h"
+#include "stir/Succeeded.h"
 #include "stir/SegmentByView.h"
 #include "stir/VoxelsOnCartesianGrid.h"
 #include "stir/PixelsOnCartesianGrid.h"
@@ -410,6 +419,8 @@ static void mode_zoom(vh::Trace& tr, long runs, int stage, vh::Rng& rng) {
       P[a] = PQ[z][0]; Q[a] = PQ[z][1];
     }
     if (two_d) { P[0] = Q[0] = 1; P[1] = P[2]; Q[1] = Q[2]; }
+    const bool shift_only = run % 5 == 4;            // zoom 1 along every axis, fractional offsets
+    if (shift_only) for (int a = 0; a < 3; ++a) P[a] = Q[a] = 1;
     const int maxn = stage ? 6 : 5;
     for (int a = 0; a < 3; ++a) {
       const int len = a == 0 ? rng.range(1, stage ? 4 : 3) : rng.range(2, maxn);
@@ -422,6 +433,7 @@ static void mode_zoom(vh::Trace& tr, long runs, int stage, vh::Rng& rng) {
       c.vox[a] = P[a] == 3 ? V3[rng.range(0, 3)] : V12[rng.range(0, 4)];
       oi[a] = rng.range(0, 2) == 0 ? 0 : rng.range(-6, 6);
       o[a] = rng.range(0, 3) == 0 ? 0 : rng.range(-6, 6);
+      if (shift_only) o[a] = rng.pick(std::vector<int>{ 1, 2, 3, 5, 6, -1, -2, -3, -5, -7 });
       c.zoom[a] = (float)P[a] / (float)Q[a];
       // new size: about the size that represents the same amount of data, sometimes less (truncation) or more (zero filling)
       const int same = (len * P[a] + Q[a] - 1) / Q[a];
@@ -517,6 +529,7 @@ static void mode_zoomr(vh::Trace& tr, long runs, int stage, vh::Rng& rng) {
       if (c.zoom[a] > 3.F) c.zoom[a] = 3.F;
       if (c.zoom[a] < 0.3F) c.zoom[a] = 0.3F;
       c.off[a] = rng.range(0, 2) == 0 ? 0.F : rng.range(-12, 12) * c.vox[a] / 8.F;
+      if (run % 5 == 4) { c.zoom[a] = 1.F; c.off[a] = rng.pick(std::vector<int>{ 1, 2, 3, 5, 7, -1, -3, -5, -6 }) * c.vox[a] / 8.F; }   // shift only
       // a box of constant value inside the image
       ulo[a] = c.lo[a] + (len >= 3 ? rng.range(0, 1) : 0);
       uhi[a] = c.hi[a] - (len >= 3 ? rng.range(0, 1) : 0);
@@ -593,6 +606,221 @@ static void mode_zoomr(vh::Trace& tr, long runs, int stage, vh::Rng& rng) {
   }
 }
 
+// ================================================================== inverse_SSRB, extend_segment, downsample_scanner
+// Self-contained trace lines (mode maps):
+//   Inv   geometry of the output (4D: N R maxT span maxDelta mash tofMash minTang maxTang minSeg maxSeg) and of the input (3D: span3
+//         maxDelta3 minSeg3 maxSeg3, rest shared), how the 3D geometry was made (kind), nz3: sparse integer input
+//         [[seg, ax, view, tang, tof, value]], ok (inverse_SSRB returned Succeeded::yes), nz: non-zero bins of the result, value * 16
+//   Ext   segment 0 of data with nv views, axial positions minAx..maxAx, tangential positions minT..maxT; ext [view, axial, tangential];
+//         in: values axial-major [ax][view][tang]; lo/hi: index range of the returned array [ax, view, tang]; out: its values
+//   Down  template geometry, requested rings / detectors, what ScatterSimulation::downsample_scanner made of it
+static void geo4_fields(vh::Json& j, const Geo& g, const ProjDataInfo& pdi) {
+  j.num("N", g.N).num("R", g.R).num("maxT", g.maxT).num("span", g.span).boolean("ge", false).num("maxDelta", g.maxDelta)
+      .num("mash", g.mash).num("tofMash", pdi.get_tof_mash_factor()).num("minTang", pdi.get_min_tangential_pos_num())
+      .num("maxTang", pdi.get_max_tangential_pos_num()).num("minSeg", pdi.get_min_segment_num()).num("maxSeg", pdi.get_max_segment_num());
+}
+
+static void mode_inv(vh::Trace& tr, long runs, int stage, vh::Rng& rng) {
+  shared_ptr<ExamInfo> ei(new ExamInfo);
+  ei->imaging_modality = ImagingModality::PT;
+  for (long run = 0; run < runs; ++run) {
+    Geo g = random_geo(rng, stage);
+    if (g.span % 2 == 0) g.span += 1, g.maxDelta = std::max(g.maxDelta, (g.span - 1) / 2);
+    if (g.maxDelta > g.R - 1 || g.span > 2 * g.R - 1) { g.span = 1; g.maxDelta = g.R - 1; }
+    if (g.span > 1 && (g.maxDelta - (g.span - 1) / 2) % g.span == 1) g.maxDelta -= 1;
+    shared_ptr<Scanner> sc = vh::make_scanner(g.N, g.R, g.maxT);
+    shared_ptr<ProjDataInfo> info4 = make_info(sc, g);
+    // the 2D / 3D input: direct uncompressed sinograms, the same with oblique segments (ignored), span 3 segment 0, or what SSRB makes
+    const int kind = rng.range(0, 3);
+    Geo g3 = g;
+    g3.segReduce = 0;
+    shared_ptr<ProjDataInfo> info3;
+    if (kind == 0) { g3.span = 1; g3.maxDelta = 0; info3 = make_info(sc, g3); }
+    else if (kind == 1) { g3.span = 1; g3.maxDelta = g.R - 1; info3 = make_info(sc, g3); }
+    else if (kind == 2 && g.R >= 2) { g3.span = 3; g3.maxDelta = 1; info3 = make_info(sc, g3); }
+    else { info3.reset(SSRB(*info4, 2 * info4->get_max_segment_num() + 1, 1, 0, -1, 1)); g3.span = -1; g3.maxDelta = -1; }
+    auto* cyl3 = dynamic_cast<const ProjDataInfoCylindrical*>(info3.get());
+    ProjDataInMemory in3(ei, info3), out4(ei, info4);
+    std::vector<std::vector<long long>> nz3;
+    const int nfill = rng.range(1, stage ? 25 : 12);
+    for (int i = 0; i < nfill; ++i) {
+      Bin b;
+      b.segment_num() = rng.range(0, 3) ? 0 : rng.range(info3->get_min_segment_num(), info3->get_max_segment_num());
+      b.axial_pos_num() = rng.range(info3->get_min_axial_pos_num(b.segment_num()), info3->get_max_axial_pos_num(b.segment_num()));
+      b.view_num() = rng.range(0, info3->get_num_views() - 1);
+      b.tangential_pos_num() = rng.range(info3->get_min_tangential_pos_num(), info3->get_max_tangential_pos_num());
+      b.timing_pos_num() = rng.range(info3->get_min_tof_pos_num(), info3->get_max_tof_pos_num());
+      if (in3.get_bin_value(b) != 0.F) continue;
+      const int v = rng.range(1, 9);
+      b.set_bin_value((float)v);
+      in3.set_bin_value(b);
+      nz3.push_back({ b.segment_num(), b.axial_pos_num(), b.view_num(), b.tangential_pos_num(), b.timing_pos_num(), v });
+    }
+    bool ok = false;
+    std::string msg;
+    const bool err = vh::threw([&] { ok = inverse_SSRB(out4, in3) == Succeeded::yes; }, &msg);
+    vh::Json j("Inv");
+    geo4_fields(j, g, *info4);
+    j.num("kind", kind).num("span3", cyl3->get_max_ring_difference(0) - cyl3->get_min_ring_difference(0) + 1)
+        .num("maxDelta3", cyl3->get_max_ring_difference(info3->get_max_segment_num())).num("minSeg3", info3->get_min_segment_num())
+        .num("maxSeg3", info3->get_max_segment_num()).num("numAx3", info3->get_num_axial_poss(0));
+    j.arr2("nz3", nz3).boolean("err", err).boolean("ok", ok);
+    if (!err) j.arr2("nz", nonzero(out4));
+    else j.str("msg", msg);
+    tr.emit(j);
+  }
+}
+
+static void mode_ext(vh::Trace& tr, long runs, int stage, vh::Rng& rng) {
+  for (long run = 0; run < runs; ++run) {
+    Geo g = random_geo(rng, stage);
+    g.maxT = 0; g.tofMash = 0; g.segReduce = 0;
+    // at least 6 views (extend_segment takes 180 degree data with fewer than 5 views for 360 degree data)
+    if (g.N / 2 / g.mash < 6) g.mash = 1;
+    if (g.N / 2 / g.mash < 6) { g.N = rng.coin() ? 12 : 16; g.numTang = std::min(g.numTang, g.N - 1); }
+    shared_ptr<Scanner> sc = vh::make_scanner(g.N, g.R, 0);
+    shared_ptr<ProjDataInfo> info = make_info(sc, g);
+    SegmentBySinogram<float> seg = info->get_empty_segment_by_sinogram(0);
+    std::vector<long long> in;
+    for (int a = seg.get_min_axial_pos_num(); a <= seg.get_max_axial_pos_num(); ++a)
+      for (int v = seg.get_min_view_num(); v <= seg.get_max_view_num(); ++v)
+        for (int t = seg.get_min_tangential_pos_num(); t <= seg.get_max_tangential_pos_num(); ++t) {
+          const int x = rng.range(1, 99);
+          seg[a][v][t] = (float)x;
+          in.push_back(x);
+        }
+    const int nv = info->get_num_views();
+    const int ev = rng.range(0, std::min(nv, stage ? 5 : 3)), ea = rng.range(0, 3), et = rng.range(0, 3);
+    Array<3, float> out;
+    std::string msg;
+    const bool err = vh::threw([&] { out = extend_segment(seg, ev, ea, et); }, &msg);
+    vh::Json j("Ext");
+    j.num("N", g.N).num("nv", nv).num("minAx", seg.get_min_axial_pos_num()).num("maxAx", seg.get_max_axial_pos_num())
+        .num("minT", seg.get_min_tangential_pos_num()).num("maxT", seg.get_max_tangential_pos_num())
+        .arr("ext", std::vector<int>{ ev, ea, et }).arr("in", in).boolean("err", err);
+    if (!err) {
+      BasicCoordinate<3, int> mn, mx;
+      const bool regular = out.get_regular_range(mn, mx);
+      std::vector<long long> ov;
+      if (regular)
+        for (int a = mn[1]; a <= mx[1]; ++a)
+          for (int v = mn[2]; v <= mx[2]; ++v)
+            for (int t = mn[3]; t <= mx[3]; ++t) ov.push_back(vh::fx(out[a][v][t], 4));
+      j.boolean("regular", regular).arr("lo", std::vector<int>{ mn[1], mn[2], mn[3] }).arr("hi", std::vector<int>{ mx[1], mx[2], mx[3] }).arr("out", ov);
+    } else
+      j.str("msg", msg);
+    tr.emit(j);
+  }
+}
+
+static void mode_down(vh::Trace& tr, long runs, int stage, vh::Rng& rng) {
+  for (long run = 0; run < runs; ++run) {
+    Geo g = random_geo(rng, stage);
+    g.maxT = 0; g.tofMash = 0;
+    if (g.span % 2 == 0) { g.span = 1; g.maxDelta = g.R - 1; }
+    auto sc = vh::make_scanner(g.N, g.R, 0);
+    sc->set_reference_energy(511.F); sc->set_energy_resolution(0.2F);
+    sc->set_up();
+    shared_ptr<ProjDataInfo> info = make_info(sc, g);
+    const int newR = rng.range(2, 5), newN = 2 * rng.range(2, 8);
+    SingleScatterSimulation sim;
+    ExamInfo ex;
+    ex.set_low_energy_thres(350.F); ex.set_high_energy_thres(650.F); ex.imaging_modality = ImagingModality::PT;
+    bool ok = false;
+    std::string msg;
+    const bool err = vh::threw([&] {
+      sim.set_template_proj_data_info(*info);
+      sim.set_exam_info(ex);
+      ok = sim.downsample_scanner(newR, newN) == Succeeded::yes;
+    }, &msg);
+    vh::Json j("Down");
+    geo4_fields(j, g, *info);
+    j.num("newR", newR).num("newN", newN).boolean("err", err).boolean("ok", ok);
+    if (!err && ok) {
+      auto pdi = sim.get_template_proj_data_info_sptr();
+      j.num("dN", pdi->get_scanner_ptr()->get_num_detectors_per_ring()).num("dR", pdi->get_scanner_ptr()->get_num_rings())
+          .num("dViews", pdi->get_num_views()).num("dMinTang", pdi->get_min_tangential_pos_num()).num("dMaxTang", pdi->get_max_tangential_pos_num())
+          .num("dTofMash", pdi->get_tof_mash_factor()).num("dMaxBins", pdi->get_scanner_ptr()->get_max_num_non_arccorrected_bins())
+          .arr2("dSegs", seg_table(*pdi));
+      // the axial length is kept: new ring spacing * new rings against old ring spacing * old rings, in 1e-6
+      j.num("lenRatio6", std::llround(1e6 * (double)pdi->get_scanner_ptr()->get_ring_spacing() * pdi->get_scanner_ptr()->get_num_rings()
+                                      / ((double)sc->get_ring_spacing() * sc->get_num_rings())));
+    } else if (err)
+      j.str("msg", msg);
+    tr.emit(j);
+  }
+}
+
+// ---------------------------------------------------------------- zoom_viewgram(s): the 1-D (tangential) analogue on arc-corrected data
+//   VIn   nv views, view (0: phi = 0, nv/2: phi = pi/2), segment, axial positions minAx..maxAx, tangential lo..hi; P Q (zoom P/Q); o: [x, y] offsets
+//         in QUARTER input bins; olo ohi: requested tangential range; vals: integer values [ax][tang]
+//   VOut  call: vg_inplace | vg_into | vgs; lo hi of the result, vox: its tangential sampling in units u = input sampling / (4P) (rounded),
+//         res: residual in 1e-6 units; vals * 2^8
+static void mode_zview(vh::Trace& tr, long runs, int stage, vh::Rng& rng) {
+  static const int PQ[7][2] = { { 1, 3 }, { 1, 2 }, { 2, 3 }, { 1, 1 }, { 3, 2 }, { 2, 1 }, { 3, 1 } };
+  for (long run = 0; run < runs; ++run) {
+    const int N = rng.coin() ? 8 : 16, R = rng.range(1, 3), nv = N / 2;
+    auto sc = vh::make_scanner(N, R, 0);
+    const int ntang = rng.range(2, stage ? 9 : 7);
+    shared_ptr<ProjDataInfo> info = ProjDataInfo::construct_proj_data_info(sc, 1, R - 1, nv, ntang, /*arc_corrected=*/true);
+    auto* arc = dynamic_cast<const ProjDataInfoCylindricalArcCorr*>(info.get());
+    const int z = rng.range(0, 6), P = PQ[z][0], Q = PQ[z][1];
+    const int view = rng.coin() ? 0 : nv / 2;
+    const int seg = rng.range(info->get_min_segment_num(), info->get_max_segment_num());
+    const int ox = rng.range(0, 3) == 0 ? 0 : rng.range(-6, 6), oy = rng.range(0, 3) == 0 ? 0 : rng.range(-6, 6);
+    const float bin = arc->get_tangential_sampling();
+    const float zoom = (float)P / (float)Q, xoff = ox * bin / 4.F, yoff = oy * bin / 4.F;
+    const int same = (ntang * P + Q - 1) / Q;
+    const int on = std::max(1, same + rng.pick(std::vector<int>{ 0, 0, 1, 2, -1, -2 }));
+    const int olo = -(on / 2) + rng.pick(std::vector<int>{ 0, 0, 0, 1, -1 }), ohi = olo + on - 1;
+    Viewgram<float> in = info->get_empty_viewgram(view, seg);
+    std::vector<long long> vals;
+    for (int a = in.get_min_axial_pos_num(); a <= in.get_max_axial_pos_num(); ++a)
+      for (int t = in.get_min_tangential_pos_num(); t <= in.get_max_tangential_pos_num(); ++t) {
+        const int v = rng.range(0, 2) ? rng.range(0, 15) : 0;
+        in[a][t] = (float)v;
+        vals.push_back(v);
+      }
+    tr.emit(vh::Json("VIn").num("id", run + 1).num("nv", nv).num("view", view).num("seg", seg).num("minAx", in.get_min_axial_pos_num())
+                .num("maxAx", in.get_max_axial_pos_num()).num("lo", in.get_min_tangential_pos_num()).num("hi", in.get_max_tangential_pos_num())
+                .num("P", P).num("Q", Q).arr("o", std::vector<int>{ ox, oy }).num("olo", olo).num("ohi", ohi).arr("vals", vals));
+    const double u = (double)bin / (4. * P);
+    shared_ptr<const ProjDataInfo> first_info;
+    for (const char* call : { "vg_inplace", "vg_into", "vgs" }) {
+      std::string msg;
+      Viewgram<float> res = in;
+      const bool err = vh::threw([&] {
+        if (!std::strcmp(call, "vg_inplace")) zoom_viewgram(res, zoom, olo, ohi, xoff, yoff);
+        else if (!std::strcmp(call, "vg_into")) {
+          Viewgram<float> out(first_info, view, seg);
+          out.fill(7.F);
+          zoom_viewgram(out, in, xoff, yoff);
+          res = out;
+        } else {
+          shared_ptr<DataSymmetriesForViewSegmentNumbers> sym(new TrivialDataSymmetriesForViewSegmentNumbers);
+          RelatedViewgrams<float> rv = info->get_empty_related_viewgrams(ViewgramIndices(view, seg), sym);
+          *rv.begin() = in;
+          zoom_viewgrams(rv, zoom, olo, ohi, xoff, yoff);
+          res = *rv.begin();
+        }
+      }, &msg);
+      vh::Json j("VOut");
+      j.str("call", call).boolean("err", err);
+      if (err) { j.str("msg", msg); tr.emit(j); continue; }
+      if (!first_info) first_info = res.get_proj_data_info_sptr();
+      auto* rarc = dynamic_cast<const ProjDataInfoCylindricalArcCorr*>(res.get_proj_data_info_sptr().get());
+      const double q = rarc->get_tangential_sampling() / u;
+      std::vector<long long> ov;
+      for (int a = res.get_min_axial_pos_num(); a <= res.get_max_axial_pos_num(); ++a)
+        for (int t = res.get_min_tangential_pos_num(); t <= res.get_max_tangential_pos_num(); ++t) ov.push_back(vh::fx(res[a][t], 8));
+      j.num("lo", res.get_min_tangential_pos_num()).num("hi", res.get_max_tangential_pos_num()).num("minAx", res.get_min_axial_pos_num())
+          .num("maxAx", res.get_max_axial_pos_num()).num("view", res.get_view_num()).num("seg", res.get_segment_num())
+          .num("vox", std::llround(q)).num("res", std::llround(std::fabs(q - std::llround(q)) * 1e6)).arr("vals", ov);
+      tr.emit(j);
+    }
+  }
+}
+
 int main(int argc, char** argv) {
   if (argc < 3) { fprintf(stderr, "usage: c15_rebin_zoom <mode> <out.ndjson> ...\n"); return 2; }
   vh::quiet();
@@ -600,8 +828,12 @@ int main(int argc, char** argv) {
   vh::install_terminate();
   const std::string mode = argv[1];
   vh::Trace tr(argv[2]);
-  vh::Rng rng(vh::seed_from_env() * 7919 + (mode == "ssrb" ? 1 : mode == "zoom" ? 2 : 3));
+  vh::Rng rng(vh::seed_from_env() * 7919 + (mode == "ssrb" ? 1 : mode == "zoom" ? 2 : mode == "zoomr" ? 3 : mode == "inv" ? 4 : mode == "ext" ? 5 : mode == "down" ? 6 : mode == "zview" ? 7 : mode == "interp" ? 8 : 9));
   if (mode == "ssrb") mode_ssrb(tr, atol(argv[3]), atoi(argv[4]), rng, argc > 5 ? argv[5] : "");
+  else if (mode == "inv") mode_inv(tr, atol(argv[3]), atoi(argv[4]), rng);
+  else if (mode == "down") mode_down(tr, atol(argv[3]), atoi(argv[4]), rng);
+  else if (mode == "zview") mode_zview(tr, atol(argv[3]), atoi(argv[4]), rng);
+  else if (mode == "ext") mode_ext(tr, atol(argv[3]), atoi(argv[4]), rng);
   else if (mode == "zoom") mode_zoom(tr, atol(argv[3]), atoi(argv[4]), rng);
   else if (mode == "zoomr") mode_zoomr(tr, atol(argv[3]), atoi(argv[4]), rng);
   else { fprintf(stderr, "unknown mode\n"); return 2; }
